@@ -362,10 +362,12 @@ def run_trees(chk, quick):
 # ---- initial values ----
 
 def ser_init(init):
+    import enum
     if init is None:
         return "none"
-    if isinstance(init, int):
+    if isinstance(init, int) and not isinstance(init, enum.Enum):
         return f"(int {init})"
+    # enumeration members (IntEnum included) are constants of their enumeration's shape
     return f"(expr {common.ser_value(init, {})})"
 
 
@@ -405,6 +407,33 @@ def init_cases(chk, quick):
         w = rng.randrange(0, 9)
         sg = rng.random() < 0.5 and w > 0
         cases.append((Shape(w, sg), build_tree(t)))
+    # constant expressions (Const, Cat/slices of constants, plain and integer Enum members) as initial values of
+    # range-shaped signals: accepted exactly when their value is an element of the range (finding F35)
+    import enum
+    from amaranth.hdl import Const, signed, unsigned
+
+    class Plain(enum.Enum):
+        A = 3
+        B = 12
+        Z = 0
+
+    class IntE(enum.IntEnum):
+        A = 2
+        B = 9
+    members = [Plain.A, Plain.B, Plain.Z, IntE.A, IntE.B]
+    for r in (range(10), range(0), range(1), range(3, 4), range(-4, 4), range(0, 16, 3), range(12, 2, -2), range(13)):
+        for v in list(range(-6, 17)):
+            for sh in (unsigned(5), signed(6), unsigned(max(1, v.bit_length())) if v >= 0 else signed((-v).bit_length() + 1)):
+                try:
+                    cases.append((r, Const(v, sh)))
+                except Exception:
+                    pass
+        for mbr in members:
+            cases.append((r, mbr))
+    for i in range(ntree // 3):
+        t = gen_tree(rng, rng.randrange(0, 3), allow_bad=(i % 15 == 0))
+        a, b = rng.randint(-9, 9), rng.randint(-9, 20)
+        cases.append((range(a, b, rng.choice([1, 1, 2, 3, -1, -2])), build_tree(t)))
     return cases
 
 
